@@ -172,6 +172,248 @@ example :
     m.ring.drained.map (·.ud) = [8, 7] ∧ m.ring.inflight = [] ∧ m.ring.ready.flatten = [] ∧ m.ring.sq = [] := by
   decide
 
+/-! ## a cancelled operation never executes — over all later steps -/
+
+/-- `s` is the submission id of a cancelled target: wherever it still is, it is the `-ECANCELED` replacement. -/
+structure Marked (s : Nat) (r : RingSt) : Prop where
+  notSq : s ∉ r.sq.map (·.1)
+  lt : s < r.nextSid
+  pool : ∀ x ∈ pool r, x.sid = s → x.canc = true
+  done : ∀ d ∈ r.drained, d.sid = s → d.canc = true
+
+theorem Marked_ringStep {s now : Nat} {fs : Files} {r : RingSt} (hm : Marked s r) (op : ROp) :
+    Marked s (ringStep now fs r op).1 := by
+  cases op with
+  | push e =>
+    simp only [ringStep]
+    split
+    · exact hm
+    · refine ⟨?_, Nat.lt_succ_of_lt hm.lt, hm.pool, hm.done⟩
+      simp only [List.map_append, List.map_cons, List.map_nil, List.mem_append, List.mem_singleton, not_or]
+      exact ⟨hm.notSq, Nat.ne_of_lt hm.lt⟩
+  | submit lats =>
+    simp only [ringStep]
+    have hfr := submitLoop_frame now r.sq lats { r with sq := [] }
+    refine ⟨?_, ?_, ?_, ?_⟩
+    · rw [hfr.sq]; simp
+    · rw [hfr.nextSid]; exact hm.lt
+    · apply submitLoop_pool_pred now (fun y => y.sid = s → y.canc = true) r.sq lats { r with sq := [] }
+      · exact hm.pool
+      · intro y hy _ hys; exact absurd (hys ▸ hy) hm.notSq
+      · intro x _ _; rfl
+    · rw [hfr.drained]; exact hm.done
+  | cqnew => exact ⟨hm.notSq, hm.lt, hm.pool, hm.done⟩
+  | cqsync => exact ⟨hm.notSq, hm.lt, hm.pool, hm.done⟩
+  | readable => exact hm
+  | sqinfo => exact hm
+  | next pick =>
+    simp only [ringStep]
+    split
+    · exact hm
+    · exact hm
+    · obtain ⟨hfr, hperm, _⟩ := promote_spec r now
+      have hp1 : ∀ x ∈ pool (promote r now), x.sid = s → x.canc = true :=
+        fun x hx => hm.pool x (hperm.mem_iff.mp hx)
+      split
+      · exact ⟨by rw [hfr.sq]; exact hm.notSq, by rw [hfr.nextSid]; exact hm.lt, hp1, by rw [hfr.drained]; exact hm.done⟩
+      · rename_i x ready' hpop
+        have hpp := popPick_perm hpop
+        have hxmem : x ∈ pool (promote r now) := List.mem_append_right _ (hpp.mem_iff.mpr List.mem_cons_self)
+        refine ⟨by rw [hfr.sq]; exact hm.notSq, by rw [hfr.nextSid]; exact hm.lt, ?_, ?_⟩
+        · intro y hy
+          simp only [pool, List.mem_append] at hy
+          rcases hy with hy | hy
+          · exact hp1 y (List.mem_append_left _ hy)
+          · exact hp1 y (List.mem_append_right _ (hpp.mem_iff.mpr (List.mem_cons_of_mem _ hy)))
+        · intro d hd
+          simp only [List.mem_append, List.mem_singleton] at hd
+          rcases hd with hd | rfl
+          · rw [hfr.drained] at hd; exact hm.done d hd
+          · exact hp1 x hxmem
+
+theorem Marked_final {s : Nat} (ops : List MOp) : ∀ (m : M), Marked s m.ring → Marked s (M.final m ops).ring := by
+  induction ops with
+  | nil => intro m h; exact h
+  | cons op ops ih =>
+    intro m h
+    apply ih
+    cases op with
+    | ring rop => exact Marked_ringStep h rop
+    | advance dt => exact h
+    | env fs => exact h
+
+theorem eq_of_sid_eq : ∀ {l : List Sched}, (sidL l).Nodup → ∀ {a b : Sched}, a ∈ l → b ∈ l → a.sid = b.sid → a = b
+  | [], _, a, _, ha, _, _ => by cases ha
+  | x :: xs, h, a, b, ha, hb, hab => by
+    simp only [sidL, List.map_cons, List.nodup_cons] at h
+    rcases List.mem_cons.mp ha with rfl | ha' <;> rcases List.mem_cons.mp hb with rfl | hb'
+    · rfl
+    · exact absurd (List.mem_map.mpr ⟨b, hb', hab.symm⟩) h.1
+    · exact absurd (List.mem_map.mpr ⟨a, ha', hab⟩) h.1
+    · exact eq_of_sid_eq (l := xs) h.2 ha' hb' hab
+
+/-- the `-ECANCELED` replacement of a cancelled target marks its submission id -/
+theorem Marked_of_canc {now : Nat} {r : RingSt} (hI : Inv now r) {x : Sched} (hx : x ∈ pool r) (hc : x.canc = true) :
+    Marked x.sid r := by
+  have hnd : (toks r).Nodup := hI.tok.nodup_iff.mpr List.nodup_range
+  rw [toks_eq] at hnd
+  have hxs : x.sid ∈ sidL (pool r) := List.mem_map.mpr ⟨x, hx, rfl⟩
+  obtain ⟨_, h2, h3⟩ := List.nodup_append.mp hnd
+  obtain ⟨h4, _, h6⟩ := List.nodup_append.mp h2
+  refine ⟨?_, ?_, ?_, ?_⟩
+  · intro hsq
+    exact h3 _ hsq _ (List.mem_append_left _ hxs) rfl
+  · have : x.sid ∈ toks r := by rw [toks_eq]; exact List.mem_append_right _ (List.mem_append_left _ hxs)
+    exact List.mem_range.mp (hI.tok.mem_iff.mp this)
+  · intro y hy hys
+    have := eq_of_sid_eq h4 hy hx hys
+    rw [this]; exact hc
+  · intro d hd hds
+    exact absurd rfl (h6 _ hxs _ (List.mem_map.mpr ⟨d, hd, hds⟩))
+
+/-- **C18: a cancelled operation is never executed, whatever happens later.** Take any reachable ring state in
+    which a cancelled target's replacement `x` is still pending (`canc`; see `cancel_replaces_target` /
+    `cancel_replaces_matured` for how it gets there). Then for *every* continuation — more pushes, submits,
+    further cancels, time, drains in any shuffle, arbitrary file changes by the environment — every completion
+    ever recorded for that submission id executed the immediate `-ECANCELED` and nothing else: no `read` (its buffer
+    is never written), no `write`, no `fsync` (no file effect); and there is at most one such completion. -/
+theorem cancelled_never_executes (m : M) (hI : Inv m.now m.ring) (x : Sched) (hx : x ∈ pool m.ring)
+    (hc : x.canc = true) (ops : List MOp) :
+    (∀ d ∈ (M.final m ops).ring.drained, d.sid = x.sid →
+        d.apply = .imm ECANCELED ∧ d.res = ECANCELED ∧ (∀ fs, (exec fs d.apply).1 = fs) ∧
+        (∀ fd off len, d.apply ≠ .read fd off len)) ∧
+    ((M.final m ops).ring.drained.map (·.sid)).count x.sid ≤ 1 := by
+  have hM := Marked_final ops m (Marked_of_canc hI hx hc)
+  have hIf := inv_final ops m hI
+  constructor
+  · intro d hd hds
+    have hcd := hM.done d hd hds
+    have := (hIf.doneOk d hd).canc hcd
+    refine ⟨this.1, this.2, fun fs => by rw [this.1]; rfl, fun fd off len => by rw [this.1]; intro h; cases h⟩
+  · have hnd : (toks (M.final m ops).ring).Nodup := hIf.tok.nodup_iff.mpr List.nodup_range
+    rw [toks_eq] at hnd
+    have := (List.nodup_append.mp (List.nodup_append.mp hnd).2.1).2.1
+    exact List.nodup_iff_count.mp this _
+
+example :
+    let m := M.final (M.init 4 ⟨[⟨[1, 2, 3], [1, 2, 3]⟩], [(0, true)]⟩)
+      [.ring (.push ⟨7, .read 0 0 2, false⟩), .ring (.submit [5]), .ring (.push ⟨9, .cancel 7, false⟩), .ring (.submit [])]
+    ∃ x ∈ pool m.ring, x.canc = true ∧ x.ud = 7 := by
+  refine ⟨⟨0, 7, .imm ECANCELED, 0, 0, 0, true⟩, ?_, rfl, rfl⟩
+  decide
+
+/-! ## what `sync` and `readable` expose is not early either -/
+
+/-- **Visibility is not early.** In every reachable state, the number `sync` exposes is exactly the number of
+    pending completions whose submit time plus oracle latency has passed; `AsyncFd` readiness is exactly
+    "there is one". -/
+theorem sync_count_exact {now : Nat} {r : RingSt} (h : Inv now r) (fs : Files) :
+    readyCount r now = ((pool r).filter (fun x => decide (x.at_ + x.lat ≤ now))).length ∧
+    (ringStep now fs r .cqsync).2.2 = .synced ((pool r).filter (fun x => decide (x.at_ + x.lat ≤ now))).length ∧
+    ((ringStep now fs r .readable).2.2 = .ready true ↔ ∃ x ∈ pool r, x.at_ + x.lat ≤ now) := by
+  have hcongr : (pool r).filter (fun x => decide (x.at_ + x.lat ≤ now)) = (pool r).filter (fun x => decide (x.when_ ≤ now)) := by
+    apply List.filter_congr
+    intro x hx
+    rw [(h.good x hx).1]
+  have hready : r.ready.flatten.filter (fun x => decide (x.when_ ≤ now)) = r.ready.flatten :=
+    List.filter_eq_self.mpr (fun x hx => by simpa using h.readyMat x hx)
+  have hc : readyCount r now = ((pool r).filter (fun x => decide (x.at_ + x.lat ≤ now))).length := by
+    rw [hcongr]
+    simp only [readyCount, pool, List.filter_append, List.length_append, hready]
+    omega
+  refine ⟨hc, by simp [ringStep, hc], ?_⟩
+  simp only [ringStep, hc]
+  constructor
+  · intro hr
+    have hpos : 0 < ((pool r).filter (fun x => decide (x.at_ + x.lat ≤ now))).length := by
+      injection hr with hr; simpa using hr
+    obtain ⟨x, hx⟩ := List.exists_mem_of_length_pos hpos
+    have := List.mem_filter.mp hx
+    exact ⟨x, this.1, by simpa using this.2⟩
+  · rintro ⟨x, hx, hle⟩
+    have : x ∈ (pool r).filter (fun x => decide (x.at_ + x.lat ≤ now)) := List.mem_filter.mpr ⟨hx, by simpa using hle⟩
+    have hpos : 0 < ((pool r).filter (fun x => decide (x.at_ + x.lat ≤ now))).length := List.length_pos_of_mem this
+    simp [hpos]
+
+/-- … and `visible` never promises more than that: a `next` after `sync` cannot come up empty-handed because of a count
+    that was too high (the count only grows as time passes and cancels post immediate completions). -/
+theorem visible_le_due (depth : Nat) (fs : Files) (ops : List MOp) :
+    let m := M.final (M.init depth fs) ops
+    readyCount m.ring m.now ≤ (pool m.ring).length := by
+  intro m
+  rw [(sync_count_exact (inv_reach depth fs ops) fs).1]
+  exact List.length_filter_le _ _
+
+/-! ## the shuffle: lazy picks are exactly the permutations -/
+
+/-- the order in which a sequence of picks drains a ready queue -/
+def drainOrder : List (List Sched) → List Nat → List Sched
+  | _, [] => []
+  | bs, p :: ps =>
+    match popPick bs p with
+    | none => []
+    | some (x, bs') => x :: drainOrder bs' ps
+
+/-- Whatever the picks, draining a ready queue completely yields each of its entries exactly once (a permutation). -/
+theorem drainOrder_perm : ∀ (picks : List Nat) (bs : List (List Sched)), picks.length = bs.flatten.length →
+    (drainOrder bs picks).Perm bs.flatten
+  | [], bs, h => by
+    have : bs.flatten = [] := List.eq_nil_of_length_eq_zero h.symm
+    simp [drainOrder, this]
+  | p :: ps, bs, h => by
+    have hne : bs.flatten ≠ [] := by intro h0; rw [h0] at h; simp at h
+    obtain ⟨x, bs', hp⟩ := popPick_some_of_ne p hne
+    have hpp := popPick_perm hp
+    simp only [drainOrder, hp]
+    have hl : ps.length = bs'.flatten.length := by
+      have := hpp.length_eq
+      simp only [List.length_cons] at this h; omega
+    exact ((drainOrder_perm ps bs' hl).cons x).trans hpp.symm
+
+theorem takeNth_of_mem : ∀ {l : List Sched} {y : Sched}, y ∈ l →
+    ∃ i rest, i < l.length ∧ takeNth i l = some (y, rest)
+  | [], _, h => by cases h
+  | x :: xs, y, h => by
+    by_cases hxy : x = y
+    · subst hxy; exact ⟨0, xs, by simp, rfl⟩
+    · have hm : y ∈ xs := by
+        rcases List.mem_cons.mp h with h1 | h1
+        · exact absurd h1.symm hxy
+        · exact h1
+      obtain ⟨i, rest, hi, ht⟩ := takeNth_of_mem hm
+      exact ⟨i + 1, x :: rest, by simp; omega, by simp [takeNth, ht]⟩
+
+/-- Conversely every permutation of a matured batch is produced by some pick sequence: the lazily-shuffled model has
+    exactly the behaviours of an eager `shuffle` at promotion time — no order is missing, none is invented. -/
+theorem every_shuffle_is_some_picks : ∀ (σ b : List Sched), σ.Perm b → ∃ picks, picks.length = b.length ∧ drainOrder [b] picks = σ
+  | [], b, h => by
+    have : b = [] := h.symm.eq_nil
+    subst this; exact ⟨[], rfl, rfl⟩
+  | y :: σ', b, h => by
+    have hy : y ∈ b := h.mem_iff.mp List.mem_cons_self
+    obtain ⟨i, rest, hi, ht⟩ := takeNth_of_mem hy
+    have hperm : σ'.Perm rest := ((h.trans (takeNth_perm ht))).cons_inv
+    obtain ⟨picks, hl, hd⟩ := every_shuffle_is_some_picks σ' rest hperm
+    have hlen : b.length = rest.length + 1 := by simpa using (takeNth_perm ht).length_eq
+    refine ⟨i :: picks, by simp [hl, hlen], ?_⟩
+    match b, hi, ht, hlen with
+    | x :: xs, hi, ht, hlen =>
+      have hmod : i % (xs.length + 1) = i := Nat.mod_eq_of_lt (by simpa using hi)
+      simp only [drainOrder, popPick, hmod, ht]
+      cases rest with
+      | nil =>
+        have : σ' = [] := hperm.eq_nil
+        subst this
+        cases picks with
+        | nil => simp [drainOrder]
+        | cons p ps => simp at hl
+      | cons r rs =>
+        simp only [List.isEmpty_cons, Bool.false_eq_true, if_false]
+        rw [hd]
+
+example : drainOrder [[⟨0, 1, .imm 0, 0, 0, 0, false⟩, ⟨0, 2, .imm 0, 1, 0, 0, false⟩]] [1, 0]
+    = [⟨0, 2, .imm 0, 1, 0, 0, false⟩, ⟨0, 1, .imm 0, 0, 0, 0, false⟩] := by decide
+
 /-! ## not early -/
 
 /-- **C18 not_early.** A completion drained at ring time `t` was submitted at `at_` with sampled latency `lat`
@@ -461,6 +703,17 @@ theorem host_rings_ok (fs : Files) (ops : List HOp) :
   have := hi.doneOk d hd
   exact ⟨this.notEarly, this.ud, fun hc => ⟨(this.canc hc).2, (this.canc hc).1⟩⟩
 
+/-- Host form of `exactly_once_drained`: on a host with any number of rings, a drained ring has delivered exactly one
+    completion per accepted submission. -/
+theorem host_exactly_once_drained (fs : Files) (ops : List HOp) :
+    ∀ kr ∈ (Host.final (Host.init fs) ops).rings, kr.2.sq = [] → kr.2.inflight = [] → kr.2.ready.flatten = [] →
+      (kr.2.drained.map (·.sid)).Perm (List.range kr.2.nextSid) ∧ (kr.2.drained.map (·.sid)).Nodup := by
+  intro kr hkr hsq hin hre
+  have h := (host_rings_ok fs ops kr hkr).1
+  have : toks kr.2 = kr.2.drained.map (·.sid) := by simp [toks, sidsNoSq, sidL, hsq, hin, hre]
+  rw [this] at h
+  exact ⟨h, h.nodup_iff.mpr List.nodup_range⟩
+
 /-- Liveness of a full drain: once every in-flight entry has matured and `sync` has been called, `n` calls of
     `next` (any shuffle) empty the ring, where `n` is what `sync` reported. -/
 theorem drain_all (now : Nat) :
@@ -537,6 +790,194 @@ example :
        .ring (.submit [5, 3]), .advance 10, .ring .cqsync]
     m.ring.visible = some 3 ∧ (pool m.ring).length = 3 ∧ ∀ x ∈ m.ring.inflight, x.when_ ≤ m.now := by
   decide
+
+/-! ## any number of rings: every ring of a host is an `M` machine -/
+
+theorem lookup_setRing_same {id : Nat} {r r' : RingSt} : ∀ {rings : List (Nat × RingSt)},
+    lookupRing id rings = some r → lookupRing id (setRing id r' rings) = some r'
+  | [], h => by simp [lookupRing] at h
+  | (k, r0) :: rest, h => by
+    simp only [lookupRing] at h
+    by_cases hk : k = id
+    · simp [setRing, hk, lookupRing]
+    · simp only [hk, if_false] at h
+      simp [setRing, hk, lookupRing, lookup_setRing_same h]
+
+theorem lookup_setRing_ne {id id' : Nat} (hne : id ≠ id') (r' : RingSt) : ∀ (rings : List (Nat × RingSt)),
+    lookupRing id (setRing id' r' rings) = lookupRing id rings
+  | [] => rfl
+  | (k, r0) :: rest => by
+    by_cases hk : k = id'
+    · have : k ≠ id := fun h => hne (h ▸ hk ▸ rfl)
+      simp [setRing, hk, lookupRing, Ne.symm hne]
+    · by_cases hk2 : k = id
+      · subst hk2; simp [setRing, lookupRing, hne]
+      · simp [setRing, hk, lookupRing, hk2, lookup_setRing_ne hne r' rest]
+
+theorem lookup_append {id : Nat} {r : RingSt} : ∀ {rings : List (Nat × RingSt)} (l : List (Nat × RingSt)),
+    lookupRing id rings = some r → lookupRing id (rings ++ l) = some r
+  | [], _, h => by simp [lookupRing] at h
+  | (k, r0) :: rest, l, h => by
+    simp only [lookupRing, List.cons_append] at h ⊢
+    by_cases hk : k = id
+    · simpa [hk] using h
+    · simp only [hk, if_false] at h ⊢
+      exact lookup_append l h
+
+theorem lookup_filter_ne {id id' : Nat} (hne : id ≠ id') : ∀ (rings : List (Nat × RingSt)),
+    lookupRing id (rings.filter (fun kr => kr.1 != id')) = lookupRing id rings
+  | [] => rfl
+  | (k, r0) :: rest => by
+    by_cases hk : k = id'
+    · simp [hk, lookupRing, lookup_filter_ne hne rest, Ne.symm hne]
+    · by_cases hk2 : k = id
+      · subst hk2; simp [lookupRing, hne]
+      · simp [hk, lookupRing, hk2, lookup_filter_ne hne rest]
+
+/-- **Ring isolation (one step).** Whatever a host does — an operation on this ring, on another ring, creating or
+    dropping another ring, time, any shim file operation — a registered ring `id` sees exactly one step of the
+    one-ring machine `M`: its own operation, a clock advance, or an environment step that rewrites the files.
+    Its queues are never touched by anything else. (Only `dropRing id` and `crash` remove it.) -/
+theorem host_step_projects (h : Host) (id : Nat) (r : RingSt) (hl : lookupRing id h.rings = some r) (op : HOp)
+    (hd : op ≠ .dropRing id) (hc : op ≠ .crash) :
+    ∃ mop : MOp,
+      lookupRing id (h.step op).1.rings = some (M.step ⟨h.now, h.files, r⟩ mop).1.ring ∧
+      (M.step ⟨h.now, h.files, r⟩ mop).1.now = (h.step op).1.now ∧
+      (M.step ⟨h.now, h.files, r⟩ mop).1.files = (h.step op).1.files ∧
+      (∀ id' rop, op = .ring id' rop → id' ≠ id → ∃ fs, mop = .env fs) := by
+  cases op with
+  | newRing entries =>
+    refine ⟨.env h.files, ?_, ?_, ?_, by intro _ _ h; cases h⟩
+    · simp only [Host.step]; split
+      · exact hl
+      · exact lookup_append _ hl
+    · simp only [Host.step]; split <;> rfl
+    · simp only [Host.step]; split <;> rfl
+  | dropRing id' =>
+    have hne : id ≠ id' := fun h => hd (h ▸ rfl)
+    exact ⟨.env h.files, by simp [Host.step, M.step, lookup_filter_ne hne, hl], rfl, rfl, by intro _ _ h; cases h⟩
+  | ring id' rop =>
+    by_cases hid : id' = id
+    · subst hid
+      refine ⟨.ring rop, ?_, ?_, ?_, by intro _ _ h hne; injection h with h1; exact absurd h1.symm hne⟩
+      · simp [Host.step, hl, M.step, lookup_setRing_same hl]
+      · simp [Host.step, hl, M.step]
+      · simp [Host.step, hl, M.step]
+    · have hne : id ≠ id' := fun h => hid h.symm
+      cases hl' : lookupRing id' h.rings with
+      | none =>
+        exact ⟨.env h.files, by simp [Host.step, hl', M.step, hl], by simp [Host.step, hl', M.step],
+          by simp [Host.step, hl', M.step], fun _ _ _ _ => ⟨_, rfl⟩⟩
+      | some r2 =>
+        exact ⟨.env (ringStep h.now h.files r2 rop).2.1,
+          by simp [Host.step, hl', M.step, lookup_setRing_ne hne, hl], by simp [Host.step, hl', M.step],
+          by simp [Host.step, hl', M.step], fun _ _ _ _ => ⟨_, rfl⟩⟩
+  | advance dt => exact ⟨.advance dt, by simp [Host.step, M.step, hl], rfl, rfl, by intro _ _ h; cases h⟩
+  | crash => exact absurd rfl hc
+  | fwrite fd off d =>
+    exact ⟨.env (syncWrite h.files fd off d).1, by simp [Host.step, M.step, hl], rfl, rfl, by intro _ _ h; cases h⟩
+  | fread fd off len => exact ⟨.env h.files, by simp [Host.step, M.step, hl], rfl, rfl, by intro _ _ h; cases h⟩
+  | fsync fd =>
+    exact ⟨.env (syncFsync h.files fd).1, by simp [Host.step, M.step, hl], rfl, rfl, by intro _ _ h; cases h⟩
+  | fclose fd =>
+    simp only [Host.step]
+    split
+    · exact ⟨.env _, by simp [M.step, hl], rfl, rfl, by intro _ _ h; cases h⟩
+    · exact ⟨.env h.files, by simp [M.step, hl], rfl, rfl, by intro _ _ h; cases h⟩
+  | fopen p =>
+    simp only [Host.step]
+    split
+    · exact ⟨.env _, by simp [M.step, hl], rfl, rfl, by intro _ _ h; cases h⟩
+    · exact ⟨.env h.files, by simp [M.step, hl], rfl, rfl, by intro _ _ h; cases h⟩
+
+/-- **Any number of rings, any interleaving.** Along any host history that neither drops ring `id` nor crashes,
+    ring `id` runs a history of the one-ring machine `M` (same clock, same files at the end): every theorem proved
+    for all `M` histories — exactly-once, not-early, same-as-sync, full-SQ, cancelled-never-executes, drain
+    liveness — holds for every ring of every host, however many other rings there are and whatever they do. -/
+theorem host_projects_to_M (ops : List HOp) :
+    ∀ (h : Host) (id : Nat) (r : RingSt), lookupRing id h.rings = some r →
+      (∀ op ∈ ops, op ≠ .dropRing id ∧ op ≠ .crash) →
+      ∃ (mops : List MOp) (r' : RingSt),
+        lookupRing id (Host.final h ops).rings = some r' ∧
+        M.final ⟨h.now, h.files, r⟩ mops = ⟨(Host.final h ops).now, (Host.final h ops).files, r'⟩ := by
+  induction ops with
+  | nil => intro h id r hl _; exact ⟨[], r, hl, rfl⟩
+  | cons op ops ih =>
+    intro h id r hl hops
+    have hop := hops op List.mem_cons_self
+    obtain ⟨mop, h1, h2, h3, _⟩ := host_step_projects h id r hl op hop.1 hop.2
+    obtain ⟨mops, r', h4, h5⟩ := ih (h.step op).1 id _ h1 (fun o ho => hops o (List.mem_cons_of_mem _ ho))
+    refine ⟨mop :: mops, r', h4, ?_⟩
+    simp only [M.final, Host.final]
+    have : (M.step ⟨h.now, h.files, r⟩ mop).1 =
+        ⟨(h.step op).1.now, (h.step op).1.files, (M.step ⟨h.now, h.files, r⟩ mop).1.ring⟩ := by
+      rw [← h2, ← h3]
+    rw [this]; exact h5
+
+/-- Transfer in action: on a host with any number of rings, a cancelled target pending on ring `id` never executes,
+    whatever this ring, the other rings and the shim do afterwards (short of dropping the ring or crashing — after
+    which nothing of it completes at all, see `crash`). -/
+theorem host_cancelled_never_executes (h : Host) (id : Nat) (r : RingSt) (hl : lookupRing id h.rings = some r)
+    (hI : Inv h.now r) (x : Sched) (hx : x ∈ pool r) (hc : x.canc = true) (ops : List HOp)
+    (hops : ∀ op ∈ ops, op ≠ .dropRing id ∧ op ≠ .crash) :
+    ∃ r', lookupRing id (Host.final h ops).rings = some r' ∧
+      ∀ d ∈ r'.drained, d.sid = x.sid → d.apply = .imm ECANCELED ∧ d.res = ECANCELED ∧
+        ∀ fd off len, d.apply ≠ .read fd off len := by
+  obtain ⟨mops, r', h1, h2⟩ := host_projects_to_M ops h id r hl hops
+  refine ⟨r', h1, ?_⟩
+  have h3 := (cancelled_never_executes ⟨h.now, h.files, r⟩ hI x hx hc mops).1
+  rw [h2] at h3
+  intro d hd hds
+  have := h3 d hd hds
+  exact ⟨this.1, this.2.1, this.2.2.2⟩
+
+example : ∃ r, lookupRing 1 (Host.final (Host.init ⟨[⟨[1], [1]⟩], [(0, true)]⟩)
+    [.newRing 2, .newRing 2, .ring 0 (.push ⟨5, .fsync 0, false⟩), .ring 1 (.push ⟨6, .fsync 0, false⟩),
+     .ring 0 (.submit [0])]).rings = some r ∧ r.sq.length = 1 := ⟨_, rfl, rfl⟩
+
+/-! ## the synchronous API, spelled out (what `same_as_sync` equates the ring with) -/
+
+/-- `read_at`: short at end of file — the count is `min len (size − off)`, `0` at or past EOF, and the bytes are that
+    slice of the content; nothing changes. -/
+theorem sync_read_spec (fs : Files) (fd off len p : Nat) (i : Inode) (hr : fs.resolve fd = some (p, i)) :
+    syncRead fs fd off len = (((min len (i.content.length - off) : Nat) : Int), (i.content.drop off).take len) ∧
+    (i.content.length ≤ off → (syncRead fs fd off len).1 = 0 ∧ (syncRead fs fd off len).2 = []) := by
+  have hlen : (readBytes i.content off len).length = min len (i.content.length - off) := by
+    simp [readBytes, List.length_take, List.length_drop]
+  refine ⟨by simp [syncRead, hr, readBytes], ?_⟩
+  intro hle
+  have h0 : i.content.drop off = [] := List.drop_eq_nil_of_le hle
+  simp [syncRead, hr, readBytes, h0]
+
+/-- `write_at`: the result has length `max size (off + n)`; the bytes before `off` are kept, a gap past EOF is filled
+    with zeros, the `n` bytes at `off` are the data (overwriting in place inside the file). -/
+theorem sync_write_spec (c d : List Nat) (off : Nat) (hd : d ≠ []) :
+    (writeBytes c off d).length = max c.length (off + d.length) ∧
+    c.take off <+: writeBytes c off d ∧
+    ((writeBytes c off d).drop off).take d.length = d ∧
+    (c.length ≤ off → ((writeBytes c off d).drop c.length).take (off - c.length) = List.replicate (off - c.length) 0) := by
+  have hne : d.isEmpty = false := by cases d <;> simp_all
+  have hw : writeBytes c off d =
+      (c.take off ++ List.replicate (off - c.length) 0) ++ (d ++ c.drop (off + d.length)) := by
+    simp [writeBytes, hne, List.append_assoc]
+  have hl : (c.take off ++ List.replicate (off - c.length) 0).length = off := by
+    simp only [List.length_append, List.length_take, List.length_replicate]; omega
+  refine ⟨?_, ?_, ?_, ?_⟩
+  · rw [hw]
+    simp only [List.length_append, List.length_take, List.length_replicate, List.length_drop]; omega
+  · exact ⟨List.replicate (off - c.length) 0 ++ (d ++ c.drop (off + d.length)), by rw [hw]; simp [List.append_assoc]⟩
+  · rw [hw, List.drop_left' hl, List.take_left' rfl]
+  · intro hle
+    have ht : c.take off = c := List.take_of_length_le hle
+    rw [hw, ht, List.append_assoc, List.drop_left' rfl, List.take_left' (by simp)]
+
+/-- Closed, stale (closed-and-reopened) or unknown fds: `-EBADF`, nothing changes — for every operation kind. -/
+theorem sync_badfd (fs : Files) (fd : Nat) (hr : fs.resolve fd = none) (off len : Nat) (d : List Nat) :
+    syncRead fs fd off len = (EBADF, []) ∧ syncWrite fs fd off d = (fs, EBADF) ∧ syncFsync fs fd = (fs, EBADF) := by
+  simp [syncRead, syncWrite, syncFsync, hr]
+
+example : syncRead ⟨[⟨[1, 2, 3], []⟩], [(0, true)]⟩ 0 2 8 = (1, [3]) := by decide
+example : (writeBytes [1, 2] 4 [9]) = [1, 2, 0, 0, 9] := by decide
 
 /-- What a gone ring answers: never a completion. -/
 theorem goneOut_no_cqe (op : ROp) : ∀ ud res buf, goneOut op ≠ .ring (.cqe ud res buf) := by
